@@ -202,6 +202,16 @@ def _literal_term(node, tree=None):
     if isinstance(node, ast.UnaryOp) and isinstance(node.op, ast.USub) and isinstance(node.operand, ast.Constant) \
             and isinstance(node.operand.value, (int, float)):
         return ('const', -node.operand.value)
+    if tree is not None and isinstance(node, ast.Name):
+        # another module-level name bound once to a text / number constant
+        binds = [s_ for s_ in tree.body if isinstance(s_, ast.Assign) and any(isinstance(t_, ast.Name) and t_.id == node.id for t_ in s_.targets)]
+        if len(binds) == 1 and isinstance(binds[0].value, ast.Constant) and isinstance(binds[0].value.value, (str, int, float)) \
+                and not isinstance(binds[0].value.value, bool):
+            return ('const', binds[0].value.value)
+    if tree is not None and isinstance(node, ast.BinOp) and isinstance(node.op, ast.Add):
+        a_, b_ = _literal_term(node.left, tree), _literal_term(node.right, tree)
+        if a_ is not None and b_ is not None and a_[0] == b_[0] == 'const' and isinstance(a_[1], str) and isinstance(b_[1], str):
+            return ('const', a_[1] + b_[1])
     if isinstance(node, (ast.Tuple, ast.List, ast.Set)):
         items = [_literal_term(e, tree) for e in node.elts]
         if any(i is None for i in items):
@@ -223,6 +233,21 @@ def _literal_term(node, tree=None):
     if isinstance(node, ast.Attribute) and isinstance(node.value, ast.Name) and node.value.id in ('math', 'np', 'numpy') \
             and node.attr in ('inf', 'pi', 'e', 'nan'):
         return ('attr', ('name', node.value.id), node.attr)
+    if isinstance(node, ast.Call) and isinstance(node.func, ast.Attribute) and isinstance(node.func.value, ast.Name) \
+            and (node.func.value.id, node.func.attr) == ('Category', 'parse') and len(node.args) == 1 and not node.keywords \
+            and isinstance(node.args[0], ast.Constant) and isinstance(node.args[0].value, str):
+        # a category written as its text: a value (categories are immutable)
+        return ('call', ('attr', ('name', 'Category'), 'parse'), (('const', node.args[0].value),), ())
+    if tree is not None and isinstance(node, ast.Call) and isinstance(node.func, ast.Name) and not node.keywords \
+            and node.func.id in _module_callables(tree) and node.func.id not in ('int', 'float', 'str', 'bool', 'list', 'tuple', 'dict', 'set', 'len') \
+            and node.args and not any(isinstance(a, ast.Starred) for a in node.args):
+        # a helper applied to literals (`_schema("a/b", "b")`): kept as the call, evaluated where it is used
+        args = [_literal_term(a, tree) for a in node.args]
+        if all(a is not None and a[0] in ('const', 'tuple', 'call') for a in args):
+            fdefs = [s_ for s_ in tree.body if isinstance(s_, ast.FunctionDef) and s_.name == node.func.id]
+            imported = any(isinstance(s_, ast.ImportFrom) and any((al.asname or al.name) == node.func.id for al in s_.names) for s_ in tree.body)
+            if (len(fdefs) == 1 and not fdefs[0].decorator_list) or (not fdefs and imported):
+                return ('call', ('name', node.func.id), tuple(args), ())
     if isinstance(node, ast.Call) and isinstance(node.func, ast.Attribute) and isinstance(node.func.value, ast.Name) \
             and (node.func.value.id, node.func.attr) == ('str', 'maketrans') and len(node.args) == 1 and not node.keywords \
             and isinstance(node.args[0], ast.Dict):
@@ -623,8 +648,30 @@ class SymExec(object):
                                   if isinstance(k, str) and k.startswith(pre) and '.' not in k[len(pre):]))
             if fields:      # a record assembled field by field (e.g. a cdef struct / pair)
                 return ('record', n.id, fields)
+            if n.id not in self._params:
+                ob = self._outer_binding(n.id, st)
+                if ob is not None:
+                    return ob
             c = self.module_const(n.id)
             if c is not None:
+                if c[0] == 'call' and c[1][0] == 'name' and c[1][1] not in ('float', 'int', 'str', 'frozenset', 'set', 'tuple') and self.inline:
+                    # a constant made by a helper of the module: the value the helper computes from the literals
+                    cache = self.__dict__.setdefault('_helper_consts', {})
+                    if n.id not in cache:
+                        cache[n.id] = None
+                        fd_ = self.resolve(c[1], st)
+                        if fd_ is not None and (_expression_like(fd_) or _loops_only(fd_)):
+                            probe = st.copy()
+                            mark = len(probe.events)
+                            r_ = self.inline_expr(fd_, c[1], c[2], c[3], probe)
+                            pure_ = all(e_[0] == 'call' and (e_[1][1] == ('attr', ('name', 'Category'), 'parse') or
+                                                             (e_[1][1][0] == 'name' and e_[1][1][1][:1].isupper()))      # parsing a text, building a record
+                                        for e_ in probe.events[mark:])
+                            if r_ is not None and pure_ and not any(x[0] == 'ifexp' for x in subterms(r_)):
+                                cache[n.id] = r_
+                    if cache[n.id] is not None:
+                        return cache[n.id]
+                    return ('name', self.canonical(n.id))
                 return c
             return ('name', self.canonical(n.id))
         if isinstance(n, ast.Attribute):
@@ -688,6 +735,9 @@ class SymExec(object):
                     v = E(a.value)
                     if v[0] in ('tuple', 'list'):
                         args.extend(v[1])
+                    elif v[0] == 'call' and v[1][0] == 'name' and v[1][1][:1].isupper() and v[2] and not v[3] \
+                            and (self.record_fields(v[1]) is not None or self._class_named(v[1][1]) is None):
+                        args.extend(v[2])       # *Record(a, b): the fields of a NamedTuple-like record, in order
                     else:
                         args.append(('star', v))
                 else:
@@ -697,6 +747,23 @@ class SymExec(object):
                 sig = self.record_fields(f) or self.signature(f)
                 if sig is not None:
                     args, kws = _positional(sig, args, kws)
+            if f[0] == 'call' and f[1] in (('name', 'attrgetter'), ('attr', ('name', 'operator'), 'attrgetter')) and len(f[2]) == 1 \
+                    and not f[3] and len(args) == 1 and not kws:
+                # attrgetter('a')(x) is x.a; with a conditional name, the conditional attribute
+                def _ag(nm):
+                    if nm[0] == 'const' and isinstance(nm[1], str) and nm[1].isidentifier():
+                        return ('attr', args[0], nm[1])
+                    if nm[0] == 'ifexp':
+                        a_, b_ = _ag(nm[2]), _ag(nm[3])
+                        return ('ifexp', nm[1], a_, b_) if a_ is not None and b_ is not None else None
+                    return None
+                got_ = _ag(f[2][0])
+                if got_ is not None:
+                    return got_
+            if f == ('name', 'Unification') and args:
+                # the matcher takes its patterns as text or as parsed categories: the same matcher either way
+                args = [a_[2][0] if (a_[0] == 'call' and a_[1] == ('attr', ('name', 'Category'), 'parse') and len(a_[2]) == 1
+                                     and a_[2][0][0] == 'const' and not a_[3]) else a_ for a_ in args]
             t = ('call', f, tuple(args), kws)
             if f[0] == 'ifexp' and f[2][0] != 'ifexp' or (f[0] == 'ifexp' and f[3][0] in ('name', 'func', 'sym', 'ifexp')):
                 # calling a function chosen by a conditional (a dispatch table lookup) = choosing among the calls
@@ -747,6 +814,18 @@ class SymExec(object):
                 # chain.from_iterable(E for t in T) yields what (x for t in T for x in E) yields
                 g_ = args[0]
                 return ('genexp', ('elem', g_[1], None), tuple(g_[2]) + ((g_[1], ()),))
+            if f in (('name', 'all'), ('name', 'any')) and len(args) == 1 and not kws and args[0][0] in ('genexp', 'listcomp') \
+                    and len(args[0][2]) == 1 and not args[0][2][0][1]:
+                # all(p(x) for x in <a few known items>) is the conjunction it spells out
+                it_ = args[0][2][0][0]
+                items_ = self.iter_items(it_, st, limit=6)
+                if items_:
+                    def inst(item):
+                        r_ = replace_term(args[0][1], lambda x: x[0] == 'elem' and x[1] == it_, item)
+                        return replace_term(r_, lambda x: x[0] == 'unpack' and x[1][0] in ('tuple', 'list') and isinstance(x[2], int) and x[2] < len(x[1][1]),
+                                            lambda x: x[1][1][x[2]])
+                    parts = tuple(inst(i_) for i_ in items_)
+                    return ('bool', 'and' if f[1] == 'all' else 'or', parts) if len(parts) > 1 else parts[0]
             if f == ('name', 'list') and len(args) == 1 and not kws and args[0][0] in ('genexp', 'listcomp'):
                 return ('listcomp',) + args[0][1:]
             if f[0] == 'attr' and f[2] == 'get' and f[1][0] == 'dict' and 1 <= len(args) <= 2 and not kws \
@@ -923,9 +1002,53 @@ class SymExec(object):
         al = getattr(mt, '_aliases', None) if mt is not None else None
         return al.get(name, name) if al else name
 
-    def module_const(self, name):
+    def _outer_binding(self, name, st):
+        """a free variable of a nested function that the enclosing function binds exactly once to a helper value built
+        without calls that act (`rule_of = attrgetter(..)`, a constant, a literal table): the value it is bound to"""
+        cache = self.__dict__.setdefault('_outer_cache', {})
+        key = (id(self._stack[-1]), name)
+        if key in cache:
+            return cache[key]
+        cache[key] = None
+        fn = self._stack[-1]
+        if any(isinstance(x, ast.Name) and x.id == name and isinstance(x.ctx, (ast.Store, ast.Del)) for x in ast.walk(fn)) or \
+                any(isinstance(x, (ast.Nonlocal, ast.Global)) and name in x.names for x in ast.walk(fn)) or \
+                any(a.arg == name for x in ast.walk(fn) if isinstance(x, ast.arguments) for a in x.args + x.kwonlyargs):
+            return None
+        outer = getattr(fn, '_parent', None)
+        while outer is not None and not isinstance(outer, (ast.FunctionDef, ast.AsyncFunctionDef)):
+            if isinstance(outer, (ast.ClassDef, ast.Module)):
+                return None
+            outer = getattr(outer, '_parent', None)
+        if outer is None:
+            return None
+        binds = []
+        for x in ast.walk(outer):
+            if isinstance(x, ast.Name) and x.id == name and isinstance(x.ctx, (ast.Store, ast.Del)):
+                binds.append(x)
+            if isinstance(x, ast.arg) and x.arg == name:
+                return None
+        if len(binds) != 1:
+            return None
+        asg = getattr(binds[0], '_parent', None)
+        if not (isinstance(asg, ast.Assign) and len(asg.targets) == 1 and asg.targets[0] is binds[0]):
+            return None
+        v = asg.value
+        ok = isinstance(v, ast.Constant) or (isinstance(v, ast.Call) and isinstance(v.func, (ast.Name, ast.Attribute))
+                                             and src(v.func) in ('attrgetter', 'operator.attrgetter', 'itemgetter', 'operator.itemgetter'))
+        if not ok:
+            return None
+        probe = State()
+        probe.env = {}
+        val = self.ev(v, probe)
+        if probe.events and not all(e[0] == 'call' for e in probe.events):
+            return None
+        cache[key] = val
+        return val
+
+    def module_const(self, name, modtree=None):
         """term of a module-level name bound exactly once to a literal made of constants (str/num/tuples/sets/dicts)"""
-        modtree = self.modtree
+        modtree = modtree if modtree is not None else self.modtree
         if modtree is None:
             return None
         if id(modtree) not in self._consts_by_mod:
@@ -952,7 +1075,32 @@ class SymExec(object):
             for k in [k for k, v in consts.items() if _mutable_literal(v)]:
                 if not _read_only_uses(modtree, k):
                     del consts[k]
-        return self._consts_by_mod[id(modtree)].get(name)
+        got = self._consts_by_mod[id(modtree)].get(name)
+        if got is None and name not in self._consts_by_mod[id(modtree)]:
+            got = self._imported_const(modtree, name)
+        return got
+
+    def _imported_const(self, modtree, name):
+        """a constant of another module of the repository bound here by `from pkg.mod import NAME`"""
+        pym = getattr(modtree, '_pymodule', None)
+        repo = getattr(pym, 'repo', None)
+        if repo is None:
+            return None
+        for s_ in modtree.body:
+            if isinstance(s_, ast.ImportFrom) and s_.module and s_.level == 0:
+                for al in s_.names:
+                    if (al.asname or al.name) == name:
+                        for rel in (s_.module.replace('.', '/') + '.py', s_.module.replace('.', '/') + '/__init__.py'):
+                            if repo.exists(rel):
+                                try:
+                                    other = repo.module(rel)
+                                except Exception:
+                                    return None
+                                if any(isinstance(d, (ast.FunctionDef, ast.ClassDef)) and d.name == al.name for d in other.tree.body):
+                                    return None
+                                return self.module_const(al.name, other.tree)
+                        return None
+        return None
 
     def resolve(self, f, st):
         """FunctionDef a call target term denotes (same module / class / enclosing function), or None"""
@@ -988,10 +1136,27 @@ class SymExec(object):
                 for s_ in self.modtree.body:
                     if isinstance(s_, ast.ClassDef) and s_.name == f[1][1]:
                         owner = s_
+                if owner is None and st is not None:
+                    # a value the path has established the class of: isinstance(x, K) held
+                    for c_, pol_, _n in getattr(st, 'conds', ()):
+                        if pol_ and c_[0] == 'call' and c_[1] == ('name', 'isinstance') and len(c_[2]) == 2 and c_[2][0] == f[1] and c_[2][1][0] == 'name':
+                            for s_ in self.modtree.body:
+                                if isinstance(s_, ast.ClassDef) and s_.name == c_[2][1][1]:
+                                    owner = s_
             if owner is not None:
-                for s_ in owner.body:
-                    if isinstance(s_, ast.FunctionDef) and s_.name == f[2]:
-                        fd = s_
+                # the class itself, then its base classes defined in the same module (inherited helpers)
+                todo, seen_ = [owner], set()
+                while todo and fd is None:
+                    c_ = todo.pop(0)
+                    if id(c_) in seen_:
+                        continue
+                    seen_.add(id(c_))
+                    for s_ in c_.body:
+                        if isinstance(s_, ast.FunctionDef) and s_.name == f[2]:
+                            fd = s_
+                    for b_ in c_.bases:
+                        if isinstance(b_, ast.Name):
+                            todo += [s_ for s_ in self.modtree.body if isinstance(s_, ast.ClassDef) and s_.name == b_.id]
         local_name = f[1] if f[0] == 'name' else (f[2] if f[0] == 'attr' else None)
         if fd is None or fd in self._stack or fd.name in self.no_inline or self.canonical(fd.name) in self.no_inline \
                 or (isinstance(local_name, str) and local_name in self.no_inline):
@@ -1606,6 +1771,11 @@ class SymExec(object):
                 t, neg = t.operand, True
             if isinstance(t, ast.Call):
                 call, kind = t, 'if'
+            elif isinstance(t, ast.BoolOp) and any(isinstance(v, ast.Call) for v in t.values):
+                # `if a(..) or b(..):` with helpers that act as well as answer: walk it as the nested ifs it abbreviates
+                nested = self._split_boolop_if(s, t, neg, st)
+                if nested is not None:
+                    return self.stmt(nested, st)
         if call is None:
             return None
         if kind != 'if':
@@ -1622,6 +1792,44 @@ class SymExec(object):
         if results and results[0] is None:
             return None
         return self._after_fork(s, kind, neg, results)
+
+    def _split_boolop_if(self, s, t, neg, st):
+        """-> synthetic nested If for `if [not] (v1 op v2 ..): body else: orelse`, when one of the operands is a call of a
+        helper that has statements of its own (so that its paths must fork); else None"""
+        cached = getattr(s, '_split_if', None)
+        if cached is not None:
+            return cached or None
+        acts = False
+        for v in t.values:
+            if isinstance(v, ast.Call):
+                probe = st.copy()
+                try:
+                    fd_ = self.resolve(self.ev(v.func, probe), probe)
+                except AnalysisError:
+                    fd_ = None
+                if fd_ is not None and not _expression_like(fd_) and _forkable(fd_):
+                    acts = True
+        if not acts:
+            s._split_if = False
+            return None
+        then, other = (s.orelse, s.body) if neg else (s.body, s.orelse)
+        then = then or [ast.copy_location(ast.Pass(), s)]
+        other = other or [ast.copy_location(ast.Pass(), s)]
+
+        def build(values):
+            v0 = values[0]
+            if len(values) == 1:
+                node = ast.If(test=v0, body=then, orelse=other)
+            elif isinstance(t.op, ast.Or):
+                node = ast.If(test=v0, body=then, orelse=[build(values[1:])])
+            else:
+                node = ast.If(test=v0, body=[build(values[1:])], orelse=other)
+            ast.copy_location(node, s)
+            node._parent = getattr(s, '_parent', None)
+            node._split_if = False
+            return node
+        s._split_if = build(list(t.values))
+        return s._split_if
 
     def _hoist_fork(self, s, st):
         """`f(h(a))` as a statement, where helper h has statements of its own (a guard that raises, a loop): run as
